@@ -28,6 +28,7 @@ func main() {
 	verif := flag.String("verif", "/verif", "verification directory (evidence, known findings)")
 	replay := flag.String("replay", "", "replay file: re-evaluate a single obligation")
 	list := flag.Bool("list", false, "list obligations")
+	dump := flag.String("dump", "", "debug dump: locks")
 	flag.Parse()
 	start := time.Now()
 	seed := 0
@@ -53,7 +54,7 @@ func main() {
 			*tier = t
 		}
 	}
-	if *prop == "" {
+	if *prop == "" && *dump == "" {
 		fmt.Fprintln(os.Stderr, "usage: ykcheck -property Cxx [-tier quick|thorough]")
 		os.Exit(2)
 	}
@@ -61,6 +62,10 @@ func main() {
 	if err != nil {
 		fmt.Fprintf(os.Stderr, "UNDECIDED: cannot load %s: %v\n", *repo, err)
 		os.Exit(2)
+	}
+	if *dump != "" {
+		dumpDebug(p, *dump)
+		os.Exit(0)
 	}
 	loadInfo := map[string]interface{}{"packages": len(p.Pkgs), "all_packages": len(p.All), "functions": len(p.funcs), "load_s": time.Since(start).Seconds()}
 	props := []string{*prop}
